@@ -18,7 +18,7 @@ LEVEL_TEXT = ("Exhaustive over all 21 844 vertices of the orders k = 1..7 (succe
               "numpy integer index types; the accessor invariant is evaluated on every graph the library builds or converts in "
               "the workload.")
 LEVEL_NOTE = "Trusts string slicing/concatenation on k-mers and base-4 Horner evaluation in vlib/graphs.py."
-PLAN = {"quick": dict(shards=17, budget=40), "thorough": dict(shards=17, budget=300)}
+PLAN = {"quick": dict(shards=17, budget=100), "thorough": dict(shards=17, budget=300)}
 SPECIAL_SHARD = True  # the last shard runs files of the repository's own suite in-process under the contracts
 EXHAUSTIVE = ["all vertices of orders 1..7"]
 RULE = ("For every k = 1..7 and every v < 4^k: obtain_latters(v, k) == [index(kmer[1:] + c) for c in ACGT], obtain_formers(v, k) "
